@@ -808,6 +808,40 @@ func (e *ordEngine) classifySite(s *ordSite) (fs []ordFinding, taints []taint) {
 			}
 		}
 	}
+	// an early exit after element-dependent effects: which elements were processed depends on the iteration order
+	elementEffects := ""
+	for _, f := range fs {
+		switch f.class {
+		case "K2", "K3", "K4", "K5":
+			if elementEffects == "" {
+				elementEffects = f.detail
+			}
+		}
+	}
+	if elementEffects != "" {
+		for _, b := range blocks {
+			if b == s.header {
+				continue
+			}
+			for _, sc := range b.Succs {
+				if s.body[sc] {
+					continue
+				}
+				// leaving the loop from inside the body (break / return / goto)
+				if exitsWithError(sc) {
+					continue // abandoning the whole computation with an error is not a partial result
+				}
+				pos := token.NoPos
+				if len(b.Instrs) > 0 {
+					pos = b.Instrs[len(b.Instrs)-1].Pos()
+				}
+				if pos == token.NoPos {
+					pos = s.pos
+				}
+				add("BAD", "the loop can be left early after "+elementEffects+": only some elements are processed, and which ones depends on the iteration order", pos)
+			}
+		}
+	}
 	// values escaping through early exits: defined in the body, used outside it
 	for _, b := range blocks {
 		for _, in := range b.Instrs {
@@ -845,6 +879,42 @@ func (e *ordEngine) classifySite(s *ordSite) (fs []ordFinding, taints []taint) {
 		}
 	}
 	return
+}
+
+// exitsWithError: every path from b returns with a non-nil error as its last result (the loop's partial work is
+// abandoned together with the call).
+func exitsWithError(b *ssa.BasicBlock) bool {
+	seen := map[*ssa.BasicBlock]bool{}
+	var walk func(b *ssa.BasicBlock, d int) bool
+	walk = func(b *ssa.BasicBlock, d int) bool {
+		if seen[b] || d > 6 {
+			return false
+		}
+		seen[b] = true
+		if len(b.Instrs) == 0 {
+			return false
+		}
+		switch x := b.Instrs[len(b.Instrs)-1].(type) {
+		case *ssa.Return:
+			if len(x.Results) == 0 {
+				return false
+			}
+			last := x.Results[len(x.Results)-1]
+			return last.Type().String() == "error" && !core.IsNilConst(last)
+		case *ssa.Panic:
+			return true
+		}
+		if len(b.Succs) == 0 {
+			return false
+		}
+		for _, sc := range b.Succs {
+			if !walk(sc, d+1) {
+				return false
+			}
+		}
+		return true
+	}
+	return walk(b, 0)
 }
 
 func storeAddr(in ssa.Instruction) ssa.Value {
